@@ -158,11 +158,11 @@ token * critic_parse_substring(const char * source, size_t start, size_t len) {
 }
 
 
-void accept_token_tree(DString * d, token * t);
-void accept_token(DString * d, token * t);
+void accept_token_tree(DString * d, token * t, unsigned short depth);
+void accept_token(DString * d, token * t, unsigned short depth);
 
 
-void accept_token_tree_sub(DString * d, token * t) {
+void accept_token_tree_sub(DString * d, token * t, unsigned short depth) {
 	while (t) {
 		if (t->type == CM_SUB_DIV) {
 			while (t) {
@@ -173,14 +173,20 @@ void accept_token_tree_sub(DString * d, token * t) {
 			return;
 		}
 
-		accept_token(d, t);
+		accept_token(d, t, depth);
 
 		t = t->prev;
 	}
 }
 
 
-void accept_token(DString * d, token * t) {
+void accept_token(DString * d, token * t, unsigned short depth) {
+	// Avoid stack overflow in "pathologic" input -- marks nested deeper than
+	// this are left in place
+	if (depth == kMaxPairRecursiveDepth) {
+		return;
+	}
+
 	switch (t->type) {
 		case CM_SUB_CLOSE:
 			if (t->mate) {
@@ -208,7 +214,7 @@ void accept_token(DString * d, token * t) {
 
 			// Erase old version and markers
 			if (t->child) {
-				accept_token_tree_sub(d, t->child->mate);
+				accept_token_tree_sub(d, t->child->mate, depth + 1);
 			}
 
 			break;
@@ -218,7 +224,7 @@ void accept_token(DString * d, token * t) {
 
 			// Check children
 			if (t->child) {
-				accept_token_tree(d, t->child->mate);
+				accept_token_tree(d, t->child->mate, depth + 1);
 			}
 
 			break;
@@ -226,9 +232,9 @@ void accept_token(DString * d, token * t) {
 }
 
 
-void accept_token_tree(DString * d, token * t) {
+void accept_token_tree(DString * d, token * t, unsigned short depth) {
 	while (t) {
-		accept_token(d, t);
+		accept_token(d, t, depth);
 
 		// Iterate backwards so offsets are right
 		t = t->prev;
@@ -240,7 +246,7 @@ void mmd_critic_markup_accept_range(DString * d, size_t start, size_t len) {
 	token * t = critic_parse_substring(d->str, start, len);
 
 	if (t && t->child) {
-		accept_token_tree(d, t->child->tail);
+		accept_token_tree(d, t->child->tail, 0);
 	}
 
 	token_free(t);
@@ -252,11 +258,11 @@ void mmd_critic_markup_accept(DString * d) {
 }
 
 
-void reject_token_tree(DString * d, token * t);
-void reject_token(DString * d, token * t);
+void reject_token_tree(DString * d, token * t, unsigned short depth);
+void reject_token(DString * d, token * t, unsigned short depth);
 
 
-void reject_token_tree_sub(DString * d, token * t) {
+void reject_token_tree_sub(DString * d, token * t, unsigned short depth) {
 	while (t && t->type != CM_SUB_DIV) {
 		d_string_erase(d, t->start, t->len);
 		t = t->prev;
@@ -270,14 +276,19 @@ void reject_token_tree_sub(DString * d, token * t) {
 
 	while (t) {
 
-		reject_token(d, t);
+		reject_token(d, t, depth);
 
 		t = t->prev;
 	}
 }
 
 
-void reject_token(DString * d, token * t) {
+void reject_token(DString * d, token * t, unsigned short depth) {
+	// Avoid stack overflow in "pathologic" input
+	if (depth == kMaxPairRecursiveDepth) {
+		return;
+	}
+
 	switch (t->type) {
 		case CM_SUB_CLOSE:
 			if (t->mate) {
@@ -305,7 +316,7 @@ void reject_token(DString * d, token * t) {
 
 			// Erase new version and markers
 			if (t->child) {
-				reject_token_tree_sub(d, t->child->mate);
+				reject_token_tree_sub(d, t->child->mate, depth + 1);
 			}
 
 			break;
@@ -315,7 +326,7 @@ void reject_token(DString * d, token * t) {
 
 			// Check children
 			if (t->child) {
-				reject_token_tree(d, t->child->mate);
+				reject_token_tree(d, t->child->mate, depth + 1);
 			}
 
 			break;
@@ -323,9 +334,9 @@ void reject_token(DString * d, token * t) {
 }
 
 
-void reject_token_tree(DString * d, token * t) {
+void reject_token_tree(DString * d, token * t, unsigned short depth) {
 	while (t) {
-		reject_token(d, t);
+		reject_token(d, t, depth);
 
 		// Iterate backwards so offsets are right
 		t = t->prev;
@@ -337,7 +348,7 @@ void mmd_critic_markup_reject_range(DString * d, size_t start, size_t len) {
 	token * t = critic_parse_substring(d->str, start, len);
 
 	if (t && t->child) {
-		reject_token_tree(d, t->child->tail);
+		reject_token_tree(d, t->child->tail, 0);
 	}
 
 	token_free(t);
